@@ -191,6 +191,13 @@ func (d *driver) runRandom(cls []*class, n, steps int) {
 			if s > 0 {
 				opEv["ev"], opEv["err"], opEv["st"] = op, opErr != nil, snapshot(km)
 				if op == "Add" {
+					// whether the new key has an ID requirement is read off the manager, not off the template: key types
+					// without prefix variants (streaming AEAD) turn a TINK template into a key without one
+					for _, e := range km.VerifSnapshot() {
+						if vt.ID4(e.ID) == opEv["id"] {
+							opEv["withReq"] = e.HasIDReq
+						}
+					}
 					for _, e := range cur { // what the new key was created as (its material got its label in project)
 						if e.ID == opEv["id"] {
 							opEv["meta"] = vt.Ev{"pt": e.PT, "mat": e.Mat, "impl": e.Impl}
